@@ -67,7 +67,17 @@ def C05(tier, seed):
 
 
 def C06(tier, seed):
-    return _step("C06", tier, seed, R.USER, base=("construct", "query"), seg=_paint(tier))
+    from harness import step, step_replay
+    from .core import Run
+
+    n = 3 if tier == "quick" else 4
+    extra = [Run(f"step:{a}:N={n}:queries_after_edit_and_undo", step.harness,
+                 dict(N=n, action=a, props=["C06"], followup=False, query_after=True), step_replay.replay, ("accepted",),
+                 f"{n} node slots; get_track_neighbors / has_track_id_at_time with fresh unbounded arguments at the "
+                 f"state after the edit and again after its undo (history-built states)")
+             for a in (("UserAddNode", "UserDeleteNode", "UserDeleteEdge") if tier == "quick" else
+                       ("UserAddNode", "UserDeleteNode", "UserAddEdge", "UserDeleteEdge"))]
+    return _step("C06", tier, seed, R.USER, base=("construct", "query"), seg=_paint(tier), extra_runs=extra)
 
 
 def C11(tier, seed):
